@@ -510,9 +510,12 @@ def unit_operator_op_eval(nblocks, hermitian, implicit, timeout_ms=20000, canary
         series = SOperatorSeries(eng, n)
         converted = []
 
+        zero_events = []
+
         def convert_if_zero(e, v, atol=None):
             converted.append(v)
             if eng.branch(eng.fresh("block_is_numerically_zero", "bool")):
+                zero_events.append(("converted", v))
                 return ZERO
             return v
 
@@ -542,16 +545,30 @@ def unit_operator_op_eval(nblocks, hermitian, implicit, timeout_ms=20000, canary
                 a, b = k.items[0], k.items[1]
                 e.oblige("hermitian-shortcut:recursion-only-to-the-transposed-upper-block", z3.And(zi(a) == rj, zi(b) == li, z3.BoolVal(rj < li)))
                 if e.branch(series.is_zero) or e.branch(e.fresh("transposed_block_is_zero", "bool")):
+                    zero_events.append(("transposed-block-is-zero", None))
                     return ZERO
                 return MArr(left[rj].nf * MNF.atom("A") * right[li].nf, left[rj].rows, right[li].cols)
         env = Env(None, {"hermitian": hermitian, "op": SOp(), "operator": series, "zero": ZERO, "implicit": implicit, "n_blocks": nblocks,
                          "aslinearoperator": Builtin("aslinearoperator", aslinop), "right_projectors": STup(right), "left_projectors": STup(left),
                          "_convert_if_zero": Builtin("_convert_if_zero", convert_if_zero), "atol": T("atol"), "Dagger": Builtin("Dagger", dagger)})
+        # inspections of the UNPROJECTED term (its type, whether it is diagonal / sparse) are arbitrary answers: they do not determine its blocks
+        eng.globals.setdefault("np", Namespace("np", {"ndarray": TypeObj("ndarray")}))
+        eng.globals.setdefault("sparse", Namespace("sparse", {"issparse": Builtin("issparse", lambda e, x: e.branch(e.fresh("term_is_sparse", "bool")))}))
+        eng.globals.setdefault("is_diagonal", Builtin("is_diagonal", lambda e, x, atol=None: e.branch(e.fresh("term_is_diagonal", "bool"))))
         order = eng.fresh("order")
         eng.assume(order >= 0)
         res = eng.call(Closure(inner, env, "op_eval"), [SI(i), SI(j), SI(order)], {})
         if res is ZERO:
-            return eng.oblige("zero-only-for-a-zero-term-or-a-numerically-zero-block", z3.BoolVal(True))
+            # the sentinel is justified only by: the term itself is zero; the PROJECTED block L_i^dagger A R_j was found numerically zero; the transposed block (Hermitian shortcut) is zero.
+            # Properties of the unprojected term (diagonal, sparse pattern, ...) say nothing about its blocks in a rotated basis.
+            just = z3.BoolVal(False)
+            for kind_, v_ in zero_events:
+                if kind_ == "transposed-block-is-zero":
+                    just = z3.BoolVal(True)
+                elif isinstance(v_, MArr) and _herm_canon(v_.nf, herm_atoms) == expected(li, rj):
+                    just = z3.BoolVal(True)
+            return eng.oblige("zero-only-for-a-zero-term-or-a-numerically-zero-projected-block", z3.Or(just, series.is_zero),
+                              detail=f"block ({li},{rj}): zero returned after {[k for k, _ in zero_events]}")
         ok = isinstance(res, MArr)
         eng.oblige("returns-a-matrix-or-zero", z3.BoolVal(ok), detail=repr(res))
         if ok:
